@@ -12,6 +12,7 @@ from .. import core
 
 ID = "C11"
 MODULE = "DrandProofs.C11"
+DEPENDS = ["C18", "C02"]  # base store = sorted map, store stack = atomic appends: re-checked with this property (check, P5b)
 THEOREMS = ["Drand.Beacon.Stream." + t for t in [
     "tie_syncchain_calls", "tie_syncchain_guards", "tie_dispatch_lossless",
     "c11_scan_exact", "c11_scan_out_stored", "drop_seekIdx", "c11_live_fifo", "c11_no_repeat", "c11_sent_stored", "c11_exact_partial",
